@@ -203,3 +203,74 @@ func C01_Literals() {
 	r.assertAgree("literal")
 	verif.Reach("compared")
 }
+
+// C01_Three: three binary operators, one representative per precedence level
+// (or, and, ==, <, +, *, plus - and / for associativity), symbolic int leaves.
+func C01_Three() {
+	reps := []string{"or", "and", "==", "<", "+", "*", "-", "/"}
+	op1 := reps[verif.Choice("op1", len(reps))]
+	op2 := reps[verif.Choice("op2", len(reps))]
+	op3 := reps[verif.Choice("op3", len(reps))]
+	values := map[string]any{}
+	a := c01Operand("a", 0, 0, values)
+	b := c01Operand("b", 0, 1, values)
+	c := c01Operand("c", 0, 2, values)
+	values["1004"] = verif.Int("d")
+	src := "print " + a + " " + op1 + " " + b + " " + op2 + " " + c + " " + op3 + " 1004\n"
+	r := runBoth(src, values)
+	verif.Observe("out", r.Real.Out)
+	verif.Observe("err", errClass(r.Real.Err))
+	r.assertAgree("three")
+	verif.Reach("compared")
+}
+
+// C01_Forms: signs, parentheses and mixed kinds in positions the cell and
+// precedence harnesses do not produce.
+func C01_Forms() {
+	forms := []string{
+		"- A * B", "-(A + B)", "A - - B", "A - (B - C)", "A / (B * C)", "(A) * (B)", "not (A and B)", "not A or not B",
+		"- A == B", "A < B == true", "A + B < C", "A * B + C * A", "A + B * C - A / B", "\"x\" + A * B", "\"x\" * 2 + A",
+		"A == B or A < B and B < C", "not A == B", "A and B or C", "A or B and C", "(A or B) and C", "+ A - + B",
+		"\"a\" < \"b\" == (A < B)", "nil == (A and nil)", "A != B != true", "A >= B == not (A < B)", "A <= B == not (A > B)",
+	}
+	f := forms[verif.Choice("form", len(forms))]
+	values := map[string]any{}
+	names := map[byte]string{'A': "1001", 'B': "1002", 'C': "1003"}
+	src := "print "
+	for i := 0; i < len(f); i++ {
+		if t, ok := names[f[i]]; ok {
+			if _, seen := values[t]; !seen {
+				values[t] = verif.Int("k" + t)
+			}
+			src += t
+		} else {
+			src += string(f[i])
+		}
+	}
+	r := runBoth(src+"\n", values)
+	verif.Observe("out", r.Real.Out)
+	verif.Observe("err", errClass(r.Real.Err))
+	r.assertAgree("forms")
+	verif.Reach("compared")
+}
+
+// C01_StringLits: string literals of three bytes over an alphabet with
+// backslash, quote, letters that form escapes, digits and space: the real
+// lexer and literal conversion against the reference tokenizer and the Go
+// string syntax.
+func C01_StringLits() {
+	b := verif.Bytes("s", 3)
+	for _, c := range b {
+		verif.Assume(c == '\\' || c == '"' || c == 'n' || c == 'x' || c == '4' || c == '1' || c == ' ' || c == 'q')
+	}
+	src := "print \"" + string(b) + "\"\n"
+	r := runBoth(src, nil)
+	verif.Observe("rejected", r.ParseErr != nil)
+	verif.Observe("out", r.Real.Out)
+	r.assertAgree("string literal")
+	if r.ParseErr != nil {
+		verif.Reach("rejected")
+	} else {
+		verif.Reach("accepted")
+	}
+}
